@@ -346,7 +346,8 @@ fn inv_exp(alpha: u64, p: u64) -> u64 {
 }
 /// the numbers inside `BaseElement::new(<n>)` between `const <name>` and the next `];` at column 0
 fn parse_table(src: &str, name: &str, w: usize) -> Vec<Vec<u64>> {
-    let start = src.find(&format!("const {}:", name)).expect("table");
+    // the table definition starts at column 0 (the `pub const X: .. = X;` re-exports inside the impl are indented)
+    let start = src.find(&format!("\nconst {}:", name)).or_else(|| src.find(&format!("\npub const {}:", name))).expect("table");
     let body = &src[start..];
     let end = body.find("\n];").unwrap();
     let mut v = Vec::new();
@@ -605,7 +606,7 @@ fn falsify(seed: u64, n: usize) -> Fals {
             let bytes: Vec<u8> = xs.iter().flat_map(|v| v.to_le_bytes()).collect();
             let exp = hex_bytes(&prim(pk, dl, &bytes));
             for deg in [1usize, 2] {
-                let e: Vec<B128> = xs.iter().map(|&v| { let k2 = r.next_u128() % M128; if r.chance(1, 2) { B128::new(v) } else { B128::new(k2) + B128::new((v + M128 - k2) % M128) } }).collect();
+                let e: Vec<B128> = xs.iter().map(|&v| { let k2 = r.next_u128() % M128; if r.chance(1, 2) { B128::new(v) } else { B128::new(k2) + B128::new(submod(v, k2, M128)) } }).collect();
                 f.check(&format!("{} hash_elements(f128, degree {}) = primitive(canonical LE bytes)", BH[k], deg), hx128(&xs), exp.clone(), hex_bytes(&bh_he128(k, deg, &e)));
             }
         }
@@ -630,7 +631,7 @@ fn probe() {
 }
 
 fn main() {
-    silence_panics();
+    if std::env::var("C11_LOUD").is_err() { silence_panics(); }
     let a: Vec<String> = std::env::args().collect();
     let cmd = a.get(1).map(|s| s.as_str()).unwrap_or("");
     let seed: u64 = a.get(2).and_then(|s| s.parse().ok()).unwrap_or(1);
